@@ -13,6 +13,46 @@ PROPS = {
         "level_text": "Kernel-checked theorems: batching well-formedness (<=8 groups, <=9 ops/group), batching is a partition of the op sequence, the opcode table equals the one compiled into the crate, MAST hash equations with opcode domains; the executable Lean batching+RPO+MAST-hash model is diffed against Span::new/CodeBlock::hash on exhaustive push patterns and random trees; decorator/whitespace/name invariance and op-sensitivity are metamorphic checks on the real assembler.",
         "level_note": "Trusted: Lean kernel, harness and export code, miden-crypto's constants as exported; RPO collision resistance is not assumed. Decoding-of-groups and hash-sensitivity theorems are not yet proved (checked by correspondence/metamorphic runs only).",
     },
+    "C15": {
+        "module": "Miden.Props.C15",
+        "gens": ["C15"],
+        "diff_is_witness": True,
+        "assumptions": ["The executor model (lean/Miden/Model/Exec.lean) mirrors processor/src/lib.rs + decoder/mod.rs; tied by correspondence on generated programs x limits n-2..n+2"],
+        "level_text": "Theorems (all programs/states): a row is refused exactly when it would be row max+1 and the error names the limit; any successful block execution ends with clk <= max, spends >= 1 cycle, appends exactly one trace row per cycle; ExecutionOptions are refused iff max < 64 or max < expected. Harness: every generated program is run under limits n-2..n+2 and 64 (n = its exact cycle count) and unbounded loops under 5 limits, against both the model and the statement's oracle.",
+        "level_note": "Full `limit_exact` (success under m iff cycles <= m, as one theorem relating two runs) is not yet proved; the two halves above are. Trusted: Lean kernel, harness, model-vs-impl correspondence.",
+    },
+    "C13": {
+        "module": "Miden.Props.C13",
+        "gens": ["C13"],
+        "diff_is_witness": True,
+        "assumptions": ["Decoder hasher/bookkeeping columns other than the op code are not in the model yet"],
+        "level_text": "Theorem decoded_stream_is_dfs: for every program, input and decision sequence the rows appended by a successful execution are a depth-first run of the MAST (inductive relation Runs: block start, executed children, REPEAT-separated loop iterations, table-resolved callees, END; spans contribute their batched ops with RESPAN and alignment NOOPs), one row per cycle. The executor model's op stream is diffed against VmStateIterator on generated programs (all block kinds, calls, syscalls, dyn, multi-batch spans).",
+        "level_note": "NOOP placement inside a span is defined by the model's batchExecOps (tied to the implementation by correspondence), not yet characterised by a theorem; group counter / hasher columns are not modelled.",
+    },
+    "C06": {
+        "module": "Miden.Props.C06",
+        "gens": ["C06"],
+        "diff_is_witness": True,
+        "assumptions": ["repeat.n unrolling and exec inlining happen in the assembler and are checked metamorphically on the real assembler, not proved"],
+        "level_text": "Theorems over the executor model for arbitrary sub-blocks, states and fuel: non-binary condition at if / loop entry / after a loop iteration never succeeds; if executes exactly the selected branch; loops iterate exactly while the popped value is 1; join sequences its children. Harness: model-vs-impl correspondence on nested control flow with 10% non-binary conditions, a grid of condition values at every decision point against the statement's oracle, repeat.n == n copies and exec == inlined body on the real assembler.",
+        "level_note": "Lowering of repeat/exec (assembler) is not modelled. Trusted: Lean kernel, harness.",
+    },
+    "C07": {
+        "module": "Miden.Props.C07",
+        "gens": ["C07"],
+        "diff_is_witness": True,
+        "assumptions": ["locals disjointness relies on the assembler's fmp prologue/epilogue, exercised by direct oracle programs only"],
+        "level_text": "Theorems: memory is a zero-default map per (context,address) (read-after-write, other keys untouched); mstore changes only element 0; every memory op fails on addresses >= 2^32 including the second word of mem_stream/adv_pipe; for every callee and caller state, a returning call/syscall/dyncall restores the caller's stack below 16, ctx, fmp and fn hash, the callee starts with exactly 16 visible elements, fresh ctx = clk+1, fmp 2^30 (2^31 for syscalls), non-kernel syscall targets fail, a return with depth != 16 fails; caller semantics; the visible depth never drops below 16 (invariant over all 88 operations and all block kinds). Harness: histories of colliding loads/stores across nested call/syscall/dyncall/dynexec contexts with memory dumps of every context compared with the model; direct oracle programs for each clause.",
+        "level_note": "Locals disjointness is an oracle check on real programs (assembler not modelled). Trusted: Lean kernel, harness.",
+    },
+    "C14": {
+        "module": "Miden.Props.C14",
+        "gens": ["C14"],
+        "diff_is_witness": True,
+        "assumptions": ["Capacity hints, tracing/debug flags and decorators do not exist in the model; their irrelevance is decided on the implementation (trace fingerprints under 7 hint/flag variants, debug assembly, inserted decorators)", "History reconstruction (get_state_at) is checked on the implementation against its own forward states, not modelled"],
+        "level_text": "Theorems: the executor's result is independent of its resource bound (fuel monotonicity for all blocks, hence determinism across bounds), operations never advance the clock themselves, clk pushes the clock. Harness: whole-trace fingerprints of the real processor under expected-cycles hints 1..2^15 and tracing on/off, debug-mode assembly and randomly inserted decorators must equal the base run; the step iterator is walked forward and backward and every revisited state must equal the forward state of the same clock; clk instructions are checked against the row index.",
+        "level_note": "Allocation-dependent behaviour is invisible to a Lean model: for those clauses the deciding evidence is the differential run, as stated in DESIGN.md. Trusted: Lean kernel, harness.",
+    },
 }
 
 NOT_APPLICABLE = {}
